@@ -56,3 +56,85 @@ def use_eval_model(E):
 
 def use_address_add_contract(E):
     E.I.contracts["a816.cpu.mapping.Address.__add__"] = "vf.specs.busmodel.address_add_spec"
+
+
+# ------------------------------------------------------------------------------------------------ AST builders
+A = "a816.parse.ast.nodes."
+
+
+def tok(B, ttype, value):
+    return token(B, ttype, value)
+
+
+def expr_ident(B, name):
+    t = tok(B, "IDENTIFIER", name)
+    return B.inst(A + "ExpressionAstNode", kind="expression", file_info=t, tokens=B.list([B.inst(A + "Term", token=t)]))
+
+
+def expr_num(B, text):
+    t = tok(B, "NUMBER", str(text))
+    return B.inst(A + "ExpressionAstNode", kind="expression", file_info=t, tokens=B.list([B.inst(A + "Term", token=t)]))
+
+
+def expr_binop(B, left, op, right):
+    """left/right: ("id", name) | ("num", text)"""
+    def term(x):
+        return B.inst(A + "Term", token=tok(B, "IDENTIFIER" if x[0] == "id" else "NUMBER", str(x[1])))
+    l, r = term(left), term(right)
+    o = B.inst(A + "BinOp", token=tok(B, "OPERATOR", op))
+    return B.inst(A + "ExpressionAstNode", kind="expression", file_info=B.I.hget(B.st, l).fields["token"], tokens=B.list([l, o, r]))
+
+
+def ast_label(B, name):
+    return B.inst(A + "LabelAstNode", kind="label", file_info=tok(B, "LABEL", name), label=name)
+
+
+def ast_data(B, kind, exprs):
+    return B.inst(A + "DataNode", kind=kind, file_info=tok(B, "KEYWORD", kind), data=B.list(exprs))
+
+
+def ast_compound(B, body):
+    return B.inst(A + "CompoundAstNode", kind="compound", file_info=tok(B, "LBRACE", "{"), body=B.list(body))
+
+
+def ast_block(B, body):
+    return B.inst(A + "BlockAstNode", kind="block", file_info=tok(B, "LBRACE", "{"), body=B.list(body))
+
+
+def ast_if(B, cond_expr, then_body, else_body):
+    return B.inst(A + "IfAstNode", kind="if", file_info=tok(B, "KEYWORD", "if"), expression=cond_expr, block=ast_compound(B, then_body),
+                  else_block=ast_compound(B, else_body) if else_body is not None else None)
+
+
+def ast_for(B, var, lo_expr, hi_expr, body):
+    return B.inst(A + "ForAstNode", kind="for", file_info=tok(B, "KEYWORD", "for"), symbol=var, min_value=lo_expr, max_value=hi_expr, body=ast_compound(B, body))
+
+
+def ast_assign(B, name, expr):
+    return B.inst(A + "AssignAstNode", kind="assign", file_info=tok(B, "IDENTIFIER", name), symbol=name, value=expr)
+
+
+def ast_symbol(B, name, expr):
+    return B.inst(A + "SymbolAffectationAstNode", kind="symbol", file_info=tok(B, "IDENTIFIER", name), symbol=name, value=expr)
+
+
+def ast_macro(B, name, params, body):
+    return B.inst(A + "MacroAstNode", kind="macro", file_info=tok(B, "IDENTIFIER", name), name=name, args=B.list(params), block=ast_block(B, body))
+
+
+def ast_apply(B, name, args):
+    return B.inst(A + "MacroApplyAstNode", kind="macro_apply", file_info=tok(B, "IDENTIFIER", name), name=name, args=B.list(args))
+
+
+def ast_scope(B, name, body):
+    return B.inst(A + "ScopeAstNode", kind="scope", file_info=tok(B, "KEYWORD", "scope"), name=name, body=ast_block(B, body))
+
+
+def ast_code_lookup(B, name):
+    return B.inst(A + "CodeLookupAstNode", kind="code_lookup", file_info=tok(B, "DOUBLE_LBRACE", "{{"), symbol=name)
+
+
+def root_symbols(B, res, d):
+    root = B.I.hget(B.st, res).fields["current_scope"]
+    B.I.hmut(B.st, B.I.hget(B.st, root).fields["symbols"]).items.update(d)
+    return root
